@@ -24,7 +24,8 @@ RULE = ("Hypothesis draws well-formed definition closures (vlib.defgen.programs:
         "dominates; the classes that were tied to (now repaired) defects - alias-of-imported-struct, alias-of-imported-struct-field, "
         "struct-contains-message, string-special, prefix-names - are enabled in every second program, singly and together; every shard starts "
         "with hand-written covering programs (constants whose names contain one another - CHANS/CHANS_MAX, LEN/MAX_LEN, N1/N10 - used "
-        "together in expressions and array lengths; the 26 native names; long float constants).  "
+        "together in expressions and array lengths; alias chains of length 2 and 3 ending in an imported struct, used as scalar and array "
+        "field in a struct and in messages; the 26 native names; long float constants).  "
         "Every program is compiled in-process; then: the Python module is imported in a pristine interpreter (a brand-new process for the "
         "first two programs of every shard, otherwise a fork of a process that has only imported pyrtma) and get_msg_cls(id) must be the "
         "class of every message; gcc -fsyntax-only must accept the header (closures that do not use core type names); node imports the "
@@ -236,9 +237,10 @@ def shard(seed, n, idx, quick):
 
         # covering programs (hand-written, every run): constants whose names contain one another, used together in
         # constant expressions and array lengths; every native name, long float constants, nested arrays
-        from checks.c04 import covering_program, substring_program
+        from checks.c04 import alias_chain_program, covering_program, substring_program
 
-        for program in (substring_program(idx % 2 == 0), covering_program(idx % 2 == 1, idx % 2)) if idx < 4 else (substring_program(idx % 2 == 0),):
+        cov = [substring_program(idx % 2 == 0), alias_chain_program(idx % 4 < 2, idx % 2)] + ([covering_program(idx % 2 == 1, idx % 2)] if idx < 4 else [])
+        for program in cov:
             for key, what in run_case(E, program, res, fresh_py="fork"):
                 res.add_finding(key, what, {"key": key, "program": program.to_json()})
             res.evaluations += 1
